@@ -1,5 +1,6 @@
 """C13 -- migration moves a unit to the requested pool exactly once, with its callback."""
 from vr import Obl
+import importlib
 
 META = {
     "explanation": "E1 steps on the real migration code of thread.c from symbolic states: request side (rejections, store-before-request order checked at every atomic instruction), "
@@ -22,6 +23,8 @@ def obligations(tier):
         o.append(Obl(nm, "C13/migrate.c", d, defs=["MODE=%d" % m], unwind=5, cut_loops=SPIN, object_bits=11, backend="cadical",
                      encodes=["ABT_thread_migrate_to_pool", "ABT_thread_migrate", "thread_migrate_to_pool", "ABTI_thread_handle_request_migrate", "ABTI_thread_get_mig_data", "ABTI_thread_set_associated_pool"],
                      bounds="3 streams, <=2 pools per main scheduler, 4 pools", symbolic="unit type bits, target pool, stream states, scheduler pools, callback presence", timeout=300))
+    C06 = importlib.import_module("props.C06")
+    o += [x for x in C06.own_obligations(tier) if x.name.startswith("counter_")]   # a unit with a pending migration that yields/blocks is pushed to the pool it is now associated with
     return o
 
 MANIFEST_ENTRY = {
